@@ -95,7 +95,10 @@ def parseOp (ws : List String) : Option Op :=
   | ["addv", id, ver, a, c, p] => do
     some (.addVersion (← tok id) (← tok ver) (← bool? a) (← bool? c) (← bool? p))
   | "addmany" :: a :: c :: p :: ix :: items => do
-    some (.addMany (← items.mapM item?) (← bool? a) (← bool? c) (← bool? p) (← idx? ix))
+    let its ← items.mapM item?
+    -- a Go map holds every identifier once
+    if (its.map (·.1)).eraseDups.length ≠ its.length then none else
+    some (.addMany its (← bool? a) (← bool? c) (← bool? p) (← idx? ix))
   | ["touch", id, ver, k] => do some (.touch (← tok id) (← tok ver) (← k.toNat?))
   | ["select"] => some .select
   | ["getfile", id] => do some (.getFile (← tok id))
